@@ -1,6 +1,7 @@
 package main
 
 import (
+	"go/types"
 	"strings"
 
 	"golang.org/x/tools/go/ssa"
@@ -134,6 +135,7 @@ func init() {
 		ruleSealed, ruleKinds,
 		ruleRunOnce(notGenerated, 200),
 		ruleShapeFaults(shapeConfig{label: "generic entries", keep: notGenerated, onlyGeneric: true, floor: 41}),
+		ruleNoWrite("observers", observerEntries, 25, 30),
 	)
 }
 
@@ -252,4 +254,51 @@ var quadtreeAPI = []string{
 
 func lineClipEntries(c *Ctx) []effectEntry {
 	return []effectEntry{{key: "clip.LineString"}, {key: "clip.MultiLineString"}, {key: "clip.MultiPoint"}}
+}
+
+// observerEntries: exported functions with an orb.Geometry parameter whose
+// results contain no geometry (measures, predicates, encoders, covers), plus
+// Clone/Equal.  They are read-only by contract; transformers that return
+// geometry (clip 2-d, simplify, project, round, resample, smartclip) are
+// documented as in-place and are not observers.  Derived from signatures.
+func observerEntries(c *Ctx) []effectEntry {
+	var out []effectEntry
+	for _, fn := range c.P.shapeEntries(notGenerated, nil) {
+		generic := false
+		for _, g := range c.P.geomParams(fn) {
+			if g.kind == "" {
+				generic = true
+			}
+		}
+		if !generic {
+			continue
+		}
+		res := fn.Signature.Results()
+		returnsGeom := false
+		for i := 0; i < res.Len(); i++ {
+			t := res.At(i).Type()
+			if c.P.IsGeometry(t) {
+				returnsGeom = true
+			}
+			if k := c.P.KindOf(t); k != "" && k != "Point" && k != "Bound" {
+				returnsGeom = true
+			}
+		}
+		key := ShortKey(FuncKey(fn))
+		if returnsGeom && key != "orb.Clone" {
+			continue
+		}
+		roles := map[int]paramRole{}
+		for i, par := range fn.Params {
+			if c.P.IsGeometry(par.Type()) || c.P.KindOf(par.Type()) != "" {
+				roles[i] = roleInput
+			} else if _, isFunc := par.Type().Underlying().(*types.Signature); isFunc {
+				roles[i] = roleUser
+			} else if mayPoint(par.Type()) {
+				roles[i] = roleOwn
+			}
+		}
+		out = append(out, effectEntry{key: key, roles: roles})
+	}
+	return out
 }
